@@ -70,7 +70,7 @@ Section LinWhole.
     env LExt = 0 -> (forall c j, env (LPos c j) = 0) ->
     Deriv env (lm_rxns m) X = 0.
   Proof.
-    unfold build_linear. destruct (lin_isotopomers lv) as [isos|] eqn:Hi; [|discriminate]. cbn [bind].
+    unfold build_linear, build_linear_with. destruct (lin_isotopomers lv) as [isos|] eqn:Hi; [|discriminate]. cbn [bind].
     destruct (collect _) as [rs|] eqn:Hc; [|discriminate]. cbn [bind]. intros Hm He Hp.
     inversion Hm; subst m. cbn [lm_rxns].
     rewrite (deriv_concat_collect _ (fun _ => 0) env X lmaps rs Hc).
@@ -87,7 +87,7 @@ Section LinWhole.
                 let r := fst rm in
                 let bs := subs_of (r_stoich r) in let bp := prods_of (r_stoich r) in
                 exists (extra : list N) (mun : list nat),
-                  r_fn r = FProd /\ Permutation (r_args r) (bs ++ extra) /\ NoDup (map fst (r_stoich r)) /\ NoDup bs /\
+                  r_fn r = FProd /\ Permutation (r_args r) (bs ++ extra) /\ NoDup (map fst (r_stoich r)) /\ (rk = ReplPositional \/ NoDup bs) /\
                   (forall a, In a extra -> ~ In a bs /\ ~ In a bp /\ nlab lv a = O /\ (rk = ReplPositional -> getN a lv = None)) /\
                   (forall c, In c (bs ++ bp) -> O < nlab lv c) /\
                   snd rm = map Z.of_nat mun /\
@@ -145,7 +145,7 @@ Section LinWhole.
                 let r := fst rm in
                 let bs := subs_of (r_stoich r) in let bp := prods_of (r_stoich r) in
                 exists (extra : list N) (mun : list nat),
-                  r_fn r = FProd /\ Permutation (r_args r) (bs ++ extra) /\ NoDup (map fst (r_stoich r)) /\ NoDup bs /\
+                  r_fn r = FProd /\ Permutation (r_args r) (bs ++ extra) /\ NoDup (map fst (r_stoich r)) /\ (rk = ReplPositional \/ NoDup bs) /\
                   (forall a, In a extra -> ~ In a bs /\ ~ In a bp /\ nlab lv a = O /\ (rk = ReplPositional -> getN a lv = None)) /\
                   (forall c, In c (bs ++ bp) -> O < nlab lv c) /\
                   snd rm = map Z.of_nat mun /\
@@ -498,7 +498,7 @@ Example enrichment_nonvacuous_dict :
             let r := fst rm in
             let bs := subs_of (r_stoich r) in let bp := prods_of (r_stoich r) in
             exists (extra : list N) (mun : list nat),
-              r_fn r = FProd /\ Permutation (r_args r) (bs ++ extra) /\ NoDup (map fst (r_stoich r)) /\ NoDup bs /\
+              r_fn r = FProd /\ Permutation (r_args r) (bs ++ extra) /\ NoDup (map fst (r_stoich r)) /\ (ReplDict = ReplPositional \/ NoDup bs) /\
               (forall a, In a extra -> ~ In a bs /\ ~ In a bp /\ nlab rf_lv a = O /\ (ReplDict = ReplPositional -> getN a rf_lv = None)) /\
               (forall c, In c (bs ++ bp) -> O < nlab rf_lv c) /\
               snd rm = map Z.of_nat mun /\
@@ -518,7 +518,7 @@ Proof.
     + reflexivity.
     + vm_compute. apply Permutation_refl.
     + vm_compute. repeat constructor; cbn; intuition (try discriminate; try reflexivity).
-    + vm_compute. repeat constructor; cbn; intuition (try discriminate; try reflexivity).
+    + right. vm_compute. repeat constructor; cbn; intuition (try discriminate; try reflexivity).
     + intros a [<-|[]]. vm_compute. intuition (try discriminate; try reflexivity).
     + intros c Hc. vm_compute in Hc. destruct Hc as [<-|[<-|[]]]; vm_compute; lia.
     + reflexivity.
@@ -545,7 +545,7 @@ Example enrichment_nonvacuous_pos :
             let r := fst rm in
             let bs := subs_of (r_stoich r) in let bp := prods_of (r_stoich r) in
             exists (extra : list N) (mun : list nat),
-              r_fn r = FProd /\ Permutation (r_args r) (bs ++ extra) /\ NoDup (map fst (r_stoich r)) /\ NoDup bs /\
+              r_fn r = FProd /\ Permutation (r_args r) (bs ++ extra) /\ NoDup (map fst (r_stoich r)) /\ (ReplPositional = ReplPositional \/ NoDup bs) /\
               (forall a, In a extra -> ~ In a bs /\ ~ In a bp /\ nlab rf_lv a = O /\ (ReplPositional = ReplPositional -> getN a rf_lv = None)) /\
               (forall c, In c (bs ++ bp) -> O < nlab rf_lv c) /\
               snd rm = map Z.of_nat mun /\
@@ -565,7 +565,7 @@ Proof.
     + reflexivity.
     + vm_compute. apply Permutation_refl.
     + vm_compute. repeat constructor; cbn; intuition (try discriminate; try reflexivity).
-    + vm_compute. repeat constructor; cbn; intuition (try discriminate; try reflexivity).
+    + right. vm_compute. repeat constructor; cbn; intuition (try discriminate; try reflexivity).
     + intros a [<-|[]]. vm_compute. intuition (try discriminate; try reflexivity).
     + intros c Hc. vm_compute in Hc. destruct Hc as [<-|[<-|[]]]; vm_compute; lia.
     + reflexivity.
@@ -592,7 +592,7 @@ Example enrichment_nonvacuous_unk :
             let r := fst rm in
             let bs := subs_of (r_stoich r) in let bp := prods_of (r_stoich r) in
             exists (extra : list N) (mun : list nat),
-              r_fn r = FProd /\ Permutation (r_args r) (bs ++ extra) /\ NoDup (map fst (r_stoich r)) /\ NoDup bs /\
+              r_fn r = FProd /\ Permutation (r_args r) (bs ++ extra) /\ NoDup (map fst (r_stoich r)) /\ (ReplUnknown = ReplPositional \/ NoDup bs) /\
               (forall a, In a extra -> ~ In a bs /\ ~ In a bp /\ nlab rf_lv a = O /\ (ReplUnknown = ReplPositional -> getN a rf_lv = None)) /\
               (forall c, In c (bs ++ bp) -> O < nlab rf_lv c) /\
               snd rm = map Z.of_nat mun /\
@@ -612,7 +612,7 @@ Proof.
     + reflexivity.
     + vm_compute. apply Permutation_refl.
     + vm_compute. repeat constructor; cbn; intuition (try discriminate; try reflexivity).
-    + vm_compute. repeat constructor; cbn; intuition (try discriminate; try reflexivity).
+    + right. vm_compute. repeat constructor; cbn; intuition (try discriminate; try reflexivity).
     + intros a [<-|[]]. vm_compute. intuition (try discriminate; try reflexivity).
     + intros c Hc. vm_compute in Hc. destruct Hc as [<-|[<-|[]]]; vm_compute; lia.
     + reflexivity.
@@ -640,7 +640,7 @@ Example enrichment_nonvacuous :
             let r := fst rm in
             let bs := subs_of (r_stoich r) in let bp := prods_of (r_stoich r) in
             exists (extra : list N) (mun : list nat),
-              r_fn r = FProd /\ Permutation (r_args r) (bs ++ extra) /\ NoDup (map fst (r_stoich r)) /\ NoDup bs /\
+              r_fn r = FProd /\ Permutation (r_args r) (bs ++ extra) /\ NoDup (map fst (r_stoich r)) /\ (rk = ReplPositional \/ NoDup bs) /\
               (forall a, In a extra -> ~ In a bs /\ ~ In a bp /\ nlab rf_lv a = O /\ (rk = ReplPositional -> getN a rf_lv = None)) /\
               (forall c, In c (bs ++ bp) -> O < nlab rf_lv c) /\
               snd rm = map Z.of_nat mun /\
